@@ -611,7 +611,7 @@ pub fn profiles(thorough: bool) -> Vec<Profile> {
         },
         Profile {
             name: "match-default",
-            menu: Menu { vts: vec![VT::Int, VT::Data(BOOL), VT::Data(OPT)], datas: vec![BOOL, OPT, NAT], default_arms: true, ints: vec![1], ..base.clone() },
+            menu: Menu { vts: vec![VT::Int, VT::Data(BOOL), VT::Data(OPT)], datas: vec![BOOL, OPT, NAT], default_arms: true, ints: vec![1, 2], ..base.clone() },
             roots: vec![ret(VT::Int)],
             size: 6 + d,
         },
